@@ -191,7 +191,7 @@ impl Prop for Bodies {
         400
     }
     fn cases(&self, tier: Tier) -> u64 {
-        tier.pick(150_000, 3_000_000)
+        tier.pick(150_000, 10_000_000)
     }
     fn generate(&self, g: &mut Gen) -> BodyCase {
         let o = MsgOpts {
@@ -363,7 +363,7 @@ impl Prop for Reencode {
         220
     }
     fn cases(&self, tier: Tier) -> u64 {
-        tier.pick(150_000, 3_000_000)
+        tier.pick(150_000, 10_000_000)
     }
     fn generate(&self, g: &mut Gen) -> ReencodeCase {
         let msg = gen_wmsg(g, &MsgOpts::small());
